@@ -126,6 +126,16 @@ def rule_c12_recording(prog: Program, col: Collector) -> None:
                 acts = e.value
     if gaps is None or acts is None:
         raise AnalysisError("eval_one: result arrays of length run_steps_limit+1 / run_steps_limit not found")
+    # an episode may end before the step limit (everything revealed): entries of the action vector that are never written must not
+    # look like coalition ids
+    early = [e for e in ft.events if e.kind in ("break", "return") and any(f[0] == "for" and f[1] == loop[1] for f in e.ctx)]
+    if early:
+        nan_fill = is_call_to(acts, "numpy.full") and len(acts[2]) >= 2 and (is_global(acts[2][1], "numpy.nan", "math.nan", "numpy.NaN", "numpy.NAN") or
+                                                                                   acts[2][1] == ("call", ("global", "float"), (("const", "nan"),), ()))
+        col.check(nan_fill, ref.where(early[0].node), ref.short,
+                  "the episode loop can end early, so the action vector starts as NaN (np.full(limit, np.nan)), not as zeros", construct="zero-padded-actions",
+                  necessity="0 is the id of the empty coalition: a column that ends in zeros claims that the empty coalition - not explorable, never revealed - was chosen "
+                            "repeatedly; the sibling best-states search pads with NaN")
     row0 = [e for e in stores if e.obj == gaps and e.index == ("const", 0)]
     col.check(len(row0) == 1 and row0[0].value == ("un", "-", ("attr", envp, "reward")) and row0[0].seq > resets[0].seq and row0[0].seq < step.seq,
               ref.where(row0[0].node if row0 else None), ref.short, "gaps[0] = -env.reward right after the reset", construct="row0",
@@ -547,6 +557,43 @@ def rule_c12_rng(prog: Program, col: Collector) -> None:
                 col.violation(ref.where(e.node), ref.short, f"global-rng:{f[1]}", f"draw from the process-global RNG {f[1]}(...)", NEC_GLOBAL, rule="Q3")
     if gl == 0:
         col.ok("-", "package", "no process-global RNG draw outside generators.py (scan of every function)", rule="Q3")
+    # ---- hidden games: registry entries whose generator draws from MODULE-LEVEL state instead of the per-env stream it is given.
+    # A pool worker gets its own copy of that state (fork) or re-creates it (pickled bound methods of the module RNG), so all tasks
+    # start from the same point and replay each other; the sequential path advances one state.  C10 exempts these families from
+    # seed-determinism, C12 exempts nothing.
+    from .generators import _module_level_rngs, generator_targets
+    mod_rngs = _module_level_rngs(prog)
+    by_target: dict[str, list[str]] = {}
+    refs = {}
+    for key, tref, kwargs, entry, *_rest in generator_targets(prog):
+        if tref is None:
+            continue
+        refs[tref.short] = tref
+        uses = False
+        tft = fterms(prog, tref)
+        if list(tft.of_kind("global")):
+            uses = True
+        for d in tft.param_defaults.values():
+            if any(isinstance(n, ast.Name) and f"{tref.module.name}.{n.id}" in mod_rngs for n in ast.walk(d)):
+                uses = True
+        for v in (kwargs or {}).values():
+            if isinstance(v, ast.AST) and any(isinstance(n, ast.Name) and f"{entry.module.name}.{n.id}" in mod_rngs for n in ast.walk(v)):
+                uses = True
+        for ev in tft.events:
+            for val in ev.data.values():
+                if isinstance(val, tuple) and any(x[0] == "global" and x[1] in mod_rngs for x in subterms(val)):
+                    uses = True
+        if uses:
+            by_target.setdefault(tref.short, []).append(key)
+    for short_name, keys in sorted(by_target.items()):
+        tref = refs[short_name]
+        col.violation(tref.where(), tref.short, "module-state-generator",
+                      f"{len(keys)} registry entries ({', '.join(sorted(keys)[:4])}{', ...' if len(keys) > 4 else ''}) draw hidden games from module-level state "
+                      f"(a module RNG or a `global` counter) instead of the per-environment stream",
+                      "every pool worker starts from its own copy of that state: with processes >= 2 the repetitions of a chunk replay those of the other chunks, and the "
+                      "result differs from the sequential run - for a fixed seed the result depends on the number of worker processes", rule="Q3")
+    if not by_target:
+        col.ok("-", "generators", "no registered generator draws from module-level state", rule="Q3")
     if nsites == 0:
         raise AnalysisError("Q3 found no carrier of state into the pool worker (callers of evaluate changed shape)")
 
